@@ -41,7 +41,7 @@ CHECKS.update({
     "C07": dict(
         engine="Negotiate", category="model_checking",
         text=("NegotiateDefs.tla states C07 as five declarative clauses over (configuration, outcome) plus a check-by-check transcription of the client and "
-              "server negotiation code. TLC enumerates the complete 970-cell matrix (requested version x transport x advertised subset x discover availability) "
+              "server negotiation code. TLC enumerates the complete 1330-cell matrix (requested version x transport incl. stateful without session ids x advertised subset x discover availability x a prior connection through another endpoint of the same Server) "
               "and evaluates the design on every cell; every cell is executed on a real Client/Server pair (in-memory, io pipes, SSE, streamable stateful/stateless "
               "through an in-process RoundTripper under synctest) with ListTools and CallTool right after Connect; the TLA+ monitor NegotiateMon judges each outcome."),
         design_ref="DESIGN.md section 6 C07, 5.3",
